@@ -3,7 +3,7 @@
 COMMON_TB = [
     "Coq 8.16.1 kernel and vm_compute (no native_compute); no axioms: every property theorem must print 'Closed under the global context'",
     "translator harness/src/extract.rs + items.rs (syn -> Gen/*.v: declarations and literal tables only)",
-    "correspondence harness (generators, renderers, syn-based observation of emitted token streams, case writer)",
+    "correspondence harness (generators, renderers, syn-based observation of emitted token streams, case writer); the library is called the way derive and CLI call it — generate_module_token_stream on content-addressed query / schema files, after a call on a decoy schema with the definitions reversed — so state kept between calls is part of what is observed",
 ]
 
 PROPS = {
